@@ -108,6 +108,8 @@ def run(prop, tier, seed, replay):
         for ci in range(n_cases):
             workers = 1 if ci % 3 else 3
             with C.Workers(workers):
+                if (root / f"c{ci % 4}").exists() and not (root / f"c{ci % 4}" / "patch_ids.bin").exists():
+                    C.remove(root / f"c{ci % 4}")           # left by a creation that was refused: not a cache, not overwritable
                 field = G.make_field(rng)
                 N = field["N"]
                 mode = ["centers", "name", "centers_missing", "num", "centers", "centers_and_name"][ci % 6]
@@ -146,14 +148,14 @@ def run(prop, tier, seed, replay):
                 try:
                     if mode == "name":
                         ids = s["patch"] * rng.choice([1, 1, 2])          # possibly gaps: 0, 2, 4, …
-                        cat = C.make_catalog(root / f"c{ci}", s["ra"], s["dec"], z=s["z"], w=s["w"], patch=ids, chunksize=chunk)
+                        cat = C.make_catalog(root / f"c{ci % 4}", s["ra"], s["dec"], z=s["z"], w=s["w"], patch=ids, chunksize=chunk)
                         r = check_catalog(ck, cat, rep, mode=mode)
                         if set(cat.keys()) != set(np.unique(ids).tolist()):
                             ck.add_violation(f"[name] patches {list(cat.keys())} != ids {np.unique(ids).tolist()}", rep)
                     elif mode == "num":
                         if n < 30:
                             continue
-                        cat = C.make_catalog(root / f"c{ci}", s["ra"], s["dec"], z=s["z"], w=s["w"], patch_num=min(N, 3),
+                        cat = C.make_catalog(root / f"c{ci % 4}", s["ra"], s["dec"], z=s["z"], w=s["w"], patch_num=min(N, 3),
                                              probe_size=max(n // 2, 30), chunksize=chunk)
                         r = check_catalog(ck, cat, rep, mode=mode)
                     else:
@@ -171,13 +173,13 @@ def run(prop, tier, seed, replay):
                                 # given centres take precedence over a patch-index column (documented); the column
                                 # deliberately disagrees with the nearest-centre assignment
                                 df = C.dataframe(s["ra"], s["dec"], s["z"], s["w"], (np.asarray(s["patch"]) + 1) % N)
-                                cat = Catalog.from_dataframe(root / f"c{ci}", df, ra_name="ra", dec_name="dec", redshift_name="z",
+                                cat = Catalog.from_dataframe(root / f"c{ci % 4}", df, ra_name="ra", dec_name="dec", redshift_name="z",
                                                              weight_name="w" if s["w"] is not None else None, patch_name="patch",
                                                              patch_centers=AngularCoordinates(given_buf), degrees=False,
                                                              overwrite=True, **({} if chunk is None else {"chunksize": chunk}))
                                 given_buf[:] = 0.25
                             else:
-                                cat = C.make_catalog(root / f"c{ci}", s["ra"], s["dec"], z=s["z"], w=s["w"],
+                                cat = C.make_catalog(root / f"c{ci % 4}", s["ra"], s["dec"], z=s["z"], w=s["w"],
                                                      centers=AngularCoordinates(given_buf), chunksize=chunk)
                             given_buf[:] = 0.25        # a catalog must not keep looking at the caller's memory
                         except Exception as e:  # noqa: BLE001
@@ -205,7 +207,7 @@ def run(prop, tier, seed, replay):
                     if r:
                         reqs.extend(r)
                         # reopened catalog: identical metadata
-                        cat2 = Catalog(root / f"c{ci}")
+                        cat2 = Catalog(root / f"c{ci % 4}")
                         if not (np.array_equal(cat2.get_centers().data, cat.get_centers().data)
                                 and np.array_equal(cat2.get_radii().data, cat.get_radii().data)
                                 and cat2.get_num_records() == cat.get_num_records()
@@ -269,7 +271,8 @@ def run(prop, tier, seed, replay):
                                              dict(rep, variant=variant))
                         C.remove(root / f"o{ci}")
                 finally:
-                    C.remove(root / f"c{ci}")
+                    if ci % 2 == 0:
+                        C.remove(root / f"c{ci % 4}")       # (odd cases leave their catalog: the next user of the path overwrites it)
                     C.remove(root / f"o{ci}")
         # ---- stratum: a reference patch of radius EXACTLY zero (single object, centre = the object) whose partner
         #      patch lies elsewhere: the alignment guard must refuse it (theorem guard_rejects_zero_radius)
